@@ -27,6 +27,18 @@ structure Slot where
   copied : Bool := false
   deriving Repr, DecidableEq, Inhabited
 
+/-! field setters (named so that the terms the proofs see stay small) -/
+def Slot.setNext (sl : Slot) (v : Option Nat) : Slot := { sl with next := v }
+def Slot.setPrev (sl : Slot) (v : Option Nat) : Slot := { sl with prev := v }
+def Slot.setParent (sl : Slot) (v : Option Nat) : Slot := { sl with parent := v }
+def Slot.setChild (sl : Slot) (v : Option Nat) : Slot := { sl with child := v }
+def Slot.setSibling (sl : Slot) (v : Option Nat) : Slot := { sl with sibling := v }
+def Slot.setDeleted (sl : Slot) (v : Bool) : Slot := { sl with deleted := v }
+def Slot.setCopied (sl : Slot) (v : Bool) : Slot := { sl with copied := v }
+def Slot.setBefore (sl : Slot) (v : Int) : Slot := { sl with before := v }
+def Slot.setAfter (sl : Slot) (v : Int) : Slot := { sl with after := v }
+def Slot.setOriginal (sl : Slot) (v : Int) : Slot := { sl with original := v }
+
 structure Seg where
   slots : Array Slot := #[]        -- the arena; a slot's identity is its index
   first : Option Nat := none
@@ -38,6 +50,9 @@ structure Seg where
   bufSize : Nat := 1               -- `m_bufSize`: slots are allocated in blocks of this many
   deriving Repr
 
+def Seg.setFirst (s : Seg) (v : Option Nat) : Seg := { s with first := v }
+def Seg.setLast (s : Seg) (v : Option Nat) : Seg := { s with last := v }
+def Seg.addGlyphs (s : Seg) (d : Int) : Seg := { s with numGlyphs := s.numGlyphs + d }
 def Seg.get (s : Seg) (i : Nat) : Slot := s.slots.getD i {}
 def Seg.upd (s : Seg) (i : Nat) (f : Slot → Slot) : Seg := { s with slots := s.slots.modify i f }
 
@@ -45,7 +60,7 @@ def Seg.upd (s : Seg) (i : Nat) (f : Slot → Slot) : Seg := { s with slots := s
 returned and whose other slots are chained as free -/
 def Seg.newSlot (s : Seg) (growthFactor : Nat) : Option (Nat × Seg) :=
   match s.free with
-  | i :: rest => some (i, { (s.upd i fun sl => { sl with next := none }) with free := rest })
+  | i :: rest => some (i, { (s.upd i fun sl => sl.setNext (none)) with free := rest })
   | [] =>
     if s.numGlyphs > (s.numChars * growthFactor : Nat) then none
     else
@@ -60,8 +75,8 @@ def sibling (s : Seg) : Nat → Nat → Option Nat → Bool × Seg
     if some i = ap then (false, s)
     else if ap = (s.get i).sibling then (true, s)
     else match (s.get i).sibling, ap with
-      | none, _ => (true, s.upd i fun sl => { sl with sibling := ap })
-      | some _, none => (true, s.upd i fun sl => { sl with sibling := none })
+      | none, _ => (true, s.upd i fun sl => sl.setSibling (ap))
+      | some _, none => (true, s.upd i fun sl => sl.setSibling (none))
       | some j, some _ => sibling s fuel j ap
 
 /-- `Slot::child(ap)` -/
@@ -69,7 +84,7 @@ def child (s : Seg) (i ap : Nat) : Bool × Seg :=
   if i = ap then (false, s)
   else if some ap = (s.get i).child then (true, s)
   else match (s.get i).child with
-    | none => (true, s.upd i fun sl => { sl with child := some ap })
+    | none => (true, s.upd i fun sl => sl.setChild (some ap))
     | some c => sibling s (s.slots.size + 1) c (some ap)
 
 /-- the loop of `Slot::removeChild` over the sibling chain -/
@@ -78,8 +93,8 @@ def removeSib (s : Seg) (ap : Nat) : Nat → Option Nat → Bool × Seg
   | _ + 1, none => (false, s)
   | fuel + 1, some p =>
     if (s.get p).sibling = some ap then
-      let s := s.upd p fun sl => { sl with sibling := (s.get ap).sibling }
-      (true, s.upd ap fun sl => { sl with sibling := none })
+      let s := s.upd p fun sl => sl.setSibling ((s.get ap).sibling)
+      (true, s.upd ap fun sl => sl.setSibling (none))
     else removeSib s ap fuel (s.get p).sibling
 
 /-- `Slot::removeChild(ap)` -/
@@ -90,8 +105,8 @@ def removeChild (s : Seg) (i ap : Nat) : Bool × Seg :=
   | some c =>
     if c = ap then
       let n := (s.get c).sibling
-      let s := s.upd c fun sl => { sl with sibling := none }
-      (true, s.upd i fun sl => { sl with child := n })
+      let s := s.upd c fun sl => sl.setSibling (none)
+      (true, s.upd i fun sl => sl.setChild (n))
     else removeSib s ap (s.slots.size + 1) (some c)
 
 /-- the `while (aSlot->firstChild())` loop of `freeSlot` -/
@@ -102,22 +117,36 @@ def detachChildren (s : Seg) (a : Nat) : Nat → Seg
     | none => s
     | some c =>
       if (s.get c).parent = some a then
-        let s := s.upd c fun sl => { sl with parent := none }
+        let s := s.upd c fun sl => sl.setParent (none)
         detachChildren (removeChild s a c).2 a fuel
-      else detachChildren (s.upd a fun sl => { sl with child := none }) a fuel
+      else detachChildren (s.upd a fun sl => sl.setChild (none)) a fuel
+
+/-- `if (m_parent) { m_parent->removeChild(this); attachTo(NULL); }` -/
+def Seg.unparent (seg : Seg) (i : Nat) : Seg :=
+  match (seg.get i).parent with
+  | some p => ((removeChild seg p i).2).upd i fun sl => sl.setParent none
+  | none => seg
+
+/-- `freeSlot`: `if (m_last == aSlot) m_last = aSlot->prev(); if (m_first == aSlot) m_first = aSlot->next();` -/
+def Seg.dropEnds (s : Seg) (a : Nat) : Seg :=
+  let sa := s.get a
+  let s := if s.last = some a then s.setLast sa.prev else s
+  if s.first = some a then s.setFirst sa.next else s
+
+/-- `freeSlot`: `if (aSlot->attachedTo()) aSlot->attachedTo()->removeChild(aSlot);` -/
+def Seg.unchild (s : Seg) (a : Nat) : Seg :=
+  match (s.get a).parent with
+  | some p => (removeChild s p a).2
+  | none => s
+
+/-- `freeSlot`: `::new (aSlot) Slot(...)`, then the slot is chained in front of the free list -/
+def Seg.recycle (s : Seg) (a : Nat) : Seg :=
+  { (s.upd a fun _ => { next := s.free.head? }) with free := a :: s.free }
 
 /-- `Segment::freeSlot(aSlot)` -/
 def Seg.freeSlot (s : Seg) (a : Nat) : Seg :=
-  let sa := s.get a
-  let s := if s.last = some a then { s with last := sa.prev } else s
-  let s := if s.first = some a then { s with first := sa.next } else s
-  let s := match sa.parent with
-    | some p => (removeChild s p a).2
-    | none => s
-  let s := detachChildren s a (s.slots.size + 1)
-  -- `::new (aSlot) Slot(...)`, then chained in front of the free list
-  let s := s.upd a fun _ => { next := s.free.head? }
-  { s with free := a :: s.free }
+  let s := (s.dropEnds a).unchild a
+  (detachChildren s a (s.slots.size + 1)).recycle a
 
 /-- `Segment::appendSlot(id, cid, gid, …)` as far as the heap goes -/
 def Seg.appendSlot (s : Seg) (id gid : Nat) (growthFactor : Nat) : Seg :=
@@ -126,11 +155,11 @@ def Seg.appendSlot (s : Seg) (id gid : Nat) (growthFactor : Nat) : Seg :=
   | some (a, s) =>
     let s := s.upd a fun sl => { sl with child := none, gid := gid, original := id, before := id, after := id }
     let s := match s.last with
-      | some l => s.upd l fun sl => { sl with next := some a }
+      | some l => s.upd l fun sl => sl.setNext (some a)
       | none => s
-    let s := s.upd a fun sl => { sl with prev := s.last }
-    let s := { s with last := some a }
-    if s.first.isNone then { s with first := some a } else s
+    let s := s.upd a fun sl => sl.setPrev (s.last)
+    let s := s.setLast (some a)
+    if s.first.isNone then s.setFirst (some a) else s
 
 /-! ## the rule context (`SlotMap`) and the machine registers of an action -/
 
@@ -173,6 +202,50 @@ def opNext (c : Ctx) : Outcome :=
     | none => c
   .cont { c with map := c.map + 1 }
 
+/-- `while (iss && iss->isDeleted()) iss = iss->next();` -/
+def skipDeleted (seg : Seg) : Nat → Option Nat → Option Nat
+  | 0, iss => iss
+  | _, none => none
+  | f + 1, some i => if (seg.get i).deleted then skipDeleted seg f (seg.get i).next else some i
+
+/-- `insert`, `iss` null: the new slot goes after the last slot -/
+def Seg.linkAtEnd (seg : Seg) (n : Nat) : Seg :=
+  match seg.last with
+  | some l =>
+    let seg := seg.upd l fun sl => sl.setNext (some n)
+    let seg := seg.upd n fun sl => (sl.setPrev (some l)).setBefore ((seg.get l).before)
+    seg.setLast (some n)
+  | none => (seg.setFirst (some n)).setLast (some n)
+
+/-- `insert`, `iss` not null: the new slot goes in front of `iss` -/
+def Seg.linkBefore (seg : Seg) (n i : Nat) : Seg :=
+  match (seg.get i).prev with
+  | some p =>
+    let seg := seg.upd p fun sl => sl.setNext (some n)
+    seg.upd n fun sl => (sl.setPrev (some p)).setBefore ((seg.get p).after)
+  | none =>
+    let seg := seg.upd n fun sl => (sl.setPrev none).setBefore ((seg.get i).before)
+    seg.setFirst (some n)
+
+/-- `insert`: `newSlot->next(iss)` and the association of the new slot -/
+def Seg.finishNew (seg : Seg) (n : Nat) (iss : Option Nat) : Seg :=
+  let seg := seg.upd n fun sl => sl.setNext iss
+  match iss with
+  | some i =>
+    let seg := seg.upd i fun sl => sl.setPrev (some n)
+    seg.upd n fun sl => (sl.setOriginal ((seg.get i).original)).setAfter ((seg.get i).before)
+  | none =>
+    (match (seg.get n).prev with
+     | some p => seg.upd n fun sl => (sl.setOriginal ((seg.get p).original)).setAfter ((seg.get p).after)
+     | none => seg.upd n fun sl => sl.setOriginal seg.defaultOriginal)
+
+/-- the linking part of `insert`: the new slot `n` goes in front of `iss` (at the end when `iss` is null) and takes its
+`before/after/original` from its new neighbours -/
+def Seg.linkNew (seg : Seg) (n : Nat) (iss : Option Nat) : Seg :=
+  (match iss with
+   | none => seg.linkAtEnd n
+   | some i => seg.linkBefore n i).finishNew n iss
+
 /-- `insert` -/
 def opInsert (c : Ctx) : Outcome :=
   let c := { c with maxSize := c.maxSize - 1 }
@@ -180,41 +253,26 @@ def opInsert (c : Ctx) : Outcome :=
   match c.seg.newSlot c.growthFactor with
   | none => die c
   | some (n, seg) =>
-    -- `while (iss && iss->isDeleted()) iss = iss->next();`
-    let rec skip (fuel : Nat) (iss : Option Nat) : Option Nat :=
-      match fuel, iss with
-      | 0, _ => iss
-      | _, none => none
-      | f + 1, some i => if (seg.get i).deleted then skip f (seg.get i).next else some i
-    let iss := skip (seg.slots.size + 1) c.is
-    let seg := match iss with
-      | none =>
-        (match seg.last with
-         | some l =>
-           let seg := seg.upd l fun sl => { sl with next := some n }
-           let seg := seg.upd n fun sl => { sl with prev := some l, before := (seg.get l).before }
-           { seg with last := some n }
-         | none => { seg with first := some n, last := some n })
-      | some i =>
-        (match (seg.get i).prev with
-         | some p =>
-           let seg := seg.upd p fun sl => { sl with next := some n }
-           seg.upd n fun sl => { sl with prev := some p, before := (seg.get p).after }
-         | none =>
-           let seg := seg.upd n fun sl => { sl with prev := none, before := (seg.get i).before }
-           { seg with first := some n })
-    let seg := seg.upd n fun sl => { sl with next := iss }
-    let seg := match iss with
-      | some i =>
-        let seg := seg.upd i fun sl => { sl with prev := some n }
-        seg.upd n fun sl => { sl with original := (seg.get i).original, after := (seg.get i).before }
-      | none =>
-        (match (seg.get n).prev with
-         | some p => seg.upd n fun sl => { sl with original := (seg.get p).original, after := (seg.get p).after }
-         | none => seg.upd n fun sl => { sl with original := seg.defaultOriginal })
+    let iss := skipDeleted seg (seg.slots.size + 1) c.is
+    let seg := seg.linkNew n iss
     let c := if c.is = c.highwater then { c with highpassed := false } else c
-    let seg := { seg with numGlyphs := seg.numGlyphs + 1 }
-    .cont { c with seg := seg, is := some n, map := if c.map ≠ 0 then c.map - 1 else c.map }
+    .cont { c with seg := seg.addGlyphs 1, is := some n, map := if c.map ≠ 0 then c.map - 1 else c.map }
+
+/-- the relinking of `delete_`: the neighbours of slot `i` (or `first`/`last`) bypass it -/
+def Seg.unlink (s : Seg) (i : Nat) : Seg :=
+  let si := s.get i
+  let s := match si.prev with
+    | some p => s.upd p fun sl => sl.setNext (si.next)
+    | none => s.setFirst si.next
+  match si.next with
+  | some n => s.upd n fun sl => sl.setPrev (si.prev)
+  | none => s.setLast si.prev
+
+/-- slot `i` leaves the attachment tree: out of its parent's child list, its own children become bases
+(the code shared by `freeSlot` and `delete_`) -/
+def Seg.detach (s : Seg) (i : Nat) : Seg :=
+  let s := s.unparent i
+  detachChildren s i (s.slots.size + 1)
 
 /-- `delete_` -/
 def opDelete (c : Ctx) : Outcome :=
@@ -223,21 +281,27 @@ def opDelete (c : Ctx) : Outcome :=
   | some i =>
     let si := c.seg.get i
     if si.deleted then die c else
-    let seg := c.seg.upd i fun sl => { sl with deleted := true }
-    let seg := match si.prev with
-      | some p => seg.upd p fun sl => { sl with next := si.next }
-      | none => { seg with first := si.next }
-    let seg := match si.next with
-      | some n => seg.upd n fun sl => { sl with prev := si.prev }
-      | none => { seg with last := si.prev }
-    -- the slot leaves the stream: it is taken out of the attachment tree as well (it may never reach `freeSlot`)
-    let seg := match si.parent with
-      | some p => ((removeChild seg p i).2).upd i fun sl => { sl with parent := none }
-      | none => seg
-    let seg := detachChildren seg i (seg.slots.size + 1)
+    let seg := ((c.seg.upd i fun sl => sl.setDeleted (true)).unlink i).detach i
     let c := if c.is = c.highwater then { c with highwater := si.next, highpassed := false } else c
     let is' := match si.prev with | some p => some p | none => c.is
-    .cont { c with seg := { seg with numGlyphs := seg.numGlyphs - 1 }, is := is' }
+    .cont { c with seg := seg.addGlyphs (-1), is := is' }
+
+/-- `memcpy(is, ref)` followed by the repairs of the copy's own links and index -/
+def Slot.copyFrom (si sr : Slot) : Slot :=
+  { sr with child := none, sibling := none, next := si.next, prev := si.prev, index := si.index }
+
+/-- the body of `put_copy`: slot `i` becomes a copy of slot `rf`, attached to the same parent -/
+def Seg.copySlot (seg : Seg) (i rf : Nat) : Seg :=
+  let sr := seg.get rf
+  let seg := seg.upd i fun si => si.copyFrom sr
+  match sr.parent with
+  | some p => (child seg p i).2
+  | none => seg
+
+def Ctx.withSeg (c : Ctx) (seg : Seg) : Ctx := { c with seg := seg }
+
+/-- `is->markCopied(false); is->markDeleted(false);` -/
+def Seg.unmark (seg : Seg) (i : Nat) : Seg := seg.upd i fun sl => (sl.setCopied false).setDeleted false
 
 /-- `put_copy <slot_ref>` -/
 def opPutCopy (c : Ctx) (ref : Int) : Outcome :=
@@ -245,73 +309,67 @@ def opPutCopy (c : Ctx) (ref : Int) : Outcome :=
   | none => .cont c
   | some i =>
     if (c.seg.get i).deleted then .cont c else
-    let (r, c) := slotat c ref
-    let res : Outcome := match r with
-      | some rf =>
-        if rf ≠ i then
-          let si := c.seg.get i
-          if si.parent.isSome ∨ si.child.isSome then die c else
-          let sr := c.seg.get rf
-          -- memcpy(is, ref), then the pointer fields of `is` are restored / cleared
-          let seg := c.seg.upd i fun _ => { sr with child := none, sibling := none, next := si.next, prev := si.prev }
-          let seg := match sr.parent with
-            | some p => (child seg p i).2
-            | none => seg
-          .cont { c with seg := seg }
-        else .cont c
-      | none => .cont c
-    match res with
-    | .cont c => .cont { c with seg := c.seg.upd i fun sl => { sl with copied := false, deleted := false } }
-    | o => o
+    let rc := slotat c ref
+    let c := rc.2
+    match rc.1 with
+    | some rf =>
+      if rf ≠ i then
+        if (c.seg.get i).parent.isSome ∨ (c.seg.get i).child.isSome then die c
+        else .cont (c.withSeg ((c.seg.copySlot i rf).unmark i))
+      else .cont (c.withSeg (c.seg.unmark i))
+    | none => .cont (c.withSeg (c.seg.unmark i))
+
+/-- one slot reference of `assoc`: the running minimum of `before` and maximum of `after` -/
+def assocStep (acc : Int × Int × Ctx) (sr : Int) : Int × Int × Ctx :=
+  let rc := slotat acc.2.2 sr
+  match rc.1 with
+  | some t =>
+    let st := rc.2.seg.get t
+    (if acc.1 = -1 ∨ st.before < acc.1 then st.before else acc.1, if st.after > acc.2.1 then st.after else acc.2.1, rc.2)
+  | none => (acc.1, acc.2.1, rc.2)
 
 /-- `assoc <n> <slot_ref>…` -/
 def opAssoc (c : Ctx) (refs : List Int) : Outcome :=
-  let (mn, mx, c) := refs.foldl (fun (acc : Int × Int × Ctx) sr =>
-    let (mn, mx, c) := acc
-    let (ts, c) := slotat c sr
-    match ts with
-    | some t =>
-      let st := c.seg.get t
-      let mn := if mn = -1 ∨ st.before < mn then st.before else mn
-      let mx := if st.after > mx then st.after else mx
-      (mn, mx, c)
-    | none => (mn, mx, c)) (-1, -1, c)
-  if mn > -1 then
-    match c.is with
-    | some i => .cont { c with seg := c.seg.upd i fun sl => { sl with before := mn, after := mx } }
+  let r := refs.foldl assocStep (-1, -1, c)
+  if r.1 > -1 then
+    match r.2.2.is with
+    | some i => .cont (r.2.2.withSeg (r.2.2.seg.upd i fun sl => (sl.setBefore r.1).setAfter r.2.1))
     | none => .fault "assoc: store through a null `is`"
-  else .cont c
+  else .cont r.2.2
+
+/-- the walk up the parent chain of the attachment target: number of slots seen, and whether slot `i` is one of them -/
+def chainUp (seg : Seg) (i : Nat) : Nat → Option Nat → Nat → Bool → Nat × Bool
+  | 0, _, cnt, found => (cnt, found)
+  | _, none, cnt, found => (cnt, found)
+  | f + 1, some q, cnt, found => chainUp seg i f (seg.get q).parent (cnt + 1) (found || q == i)
+
+/-- the walks down the first-child chain and along the sibling chain of slot `i` -/
+def chainDown (seg : Seg) (sel : Slot → Option Nat) : Nat → Option Nat → Nat → Nat
+  | 0, _, cnt => cnt
+  | _, none, cnt => cnt
+  | f + 1, some q, cnt => chainDown seg sel f (sel (seg.get q)) (cnt + 1)
+
+/-- `Slot::setAttr(gr_slatAttTo)` once the target `other` passed the guard: detach from the old parent, refuse chains of
+100 or more slots and cycles, then `other->child(this)` -/
+def Seg.attach (seg : Seg) (i other : Nat) : Seg :=
+  let seg := seg.unparent i
+  let r := chainUp seg i 200 (some other) 0 false
+  let cnt := chainDown seg (·.child) 200 (seg.get i).child r.1
+  let cnt := chainDown seg (·.sibling) 200 (seg.get i).sibling cnt
+  if cnt < 100 ∧ !r.2 then
+    let ch := child seg other i
+    if ch.1 then ch.2.upd i fun sl => sl.setParent (some other) else seg
+  else seg
 
 /-- `Slot::setAttr(seg, gr_slatAttTo, subindex, value, map)` for slot `i` -/
-def setAttTo (c : Ctx) (i : Nat) (subindex : Nat) (value : Int) : Ctx :=
+def setAttTo (c : Ctx) (i : Nat) (_subindex : Nat) (value : Int) : Ctx :=
   let idx := (value % 65536).toNat                         -- uint16(value)
   if idx < c.size then
     match c.smap.getD (idx + 1) none with
     | none => c
     | some other =>
-      let si := c.seg.get i
-      if other = i ∨ some other = si.parent ∨ (c.seg.get other).copied ∨ (c.seg.get other).deleted then c else
-      let seg := match si.parent with
-        | some p => ((removeChild c.seg p i).2).upd i fun sl => { sl with parent := none }
-        | none => c.seg
-      -- count the parent chain of `other`, the child chain and the sibling chain of `this`
-      let rec up (fuel : Nat) (p : Option Nat) (cnt : Nat) (found : Bool) : Nat × Bool :=
-        match fuel, p with
-        | 0, _ => (cnt, found)
-        | _, none => (cnt, found)
-        | f + 1, some q => up f (seg.get q).parent (cnt + 1) (found || q == i)
-      let (cnt, found) := up 200 (some other) 0 false
-      let rec down (fuel : Nat) (p : Option Nat) (sel : Slot → Option Nat) (cnt : Nat) : Nat :=
-        match fuel, p with
-        | 0, _ => cnt
-        | _, none => cnt
-        | f + 1, some q => down f (sel (seg.get q)) sel (cnt + 1)
-      let cnt := down 200 (seg.get i).child (·.child) cnt
-      let cnt := down 200 (seg.get i).sibling (·.sibling) cnt
-      if cnt < 100 ∧ !found then
-        let (ok, seg') := child seg other i
-        if ok then { c with seg := seg'.upd i fun sl => { sl with parent := some other } } else { c with seg := seg }
-      else { c with seg := seg }
+      if other = i ∨ some other = (c.seg.get i).parent ∨ (c.seg.get other).copied ∨ (c.seg.get other).deleted then c
+      else c.withSeg (c.seg.attach i other)
   else c
 
 /-- `attr_set <slat>` / `attr_set_slot <slat>` as far as the heap goes (`value` already popped) -/
@@ -325,23 +383,25 @@ def opTempCopy (c : Ctx) : Outcome :=
   match c.seg.newSlot c.growthFactor, c.is with
   | some (n, seg), some i =>
     let si := seg.get i
-    let seg := seg.upd n fun _ => { si with copied := true }
+    let seg := seg.upd n fun _ => si.setCopied true
     if 0 ≤ c.map ∧ c.map.toNat < c.smap.size then .cont { c with seg := seg, smap := c.smap.setIfInBounds c.map.toNat (some n) }
     else .fault "temp_copy: *map outside m_slot_map"
   | _, _ => die c
 
+/-- one cell of `SlotMap::collectGarbage` -/
+def gcStep (acc : Ctx × Option Nat) (k : Nat) : Ctx × Option Nat :=
+  match acc.1.smap.getD (k + 1) none with
+  | some sl =>
+    let s := acc.1.seg.get sl
+    if s.deleted ∨ s.copied then
+      (acc.1.withSeg (acc.1.seg.freeSlot sl),
+       if acc.2 = some sl then (match s.prev with | some p => some p | none => s.next) else acc.2)
+    else acc
+  | none => acc
+
 /-- `SlotMap::collectGarbage(aSlot)` -/
 def collectGarbage (c : Ctx) (aSlot : Option Nat) : Ctx × Option Nat :=
   -- `for (s = begin(); s != end() - 1; ++s)`: the last cell of the map is not visited
-  (List.range (c.size - 1)).foldl (fun (acc : Ctx × Option Nat) k =>
-    let (c, a) := acc
-    match c.smap.getD (k + 1) none with
-    | some sl =>
-      let s := c.seg.get sl
-      if s.deleted ∨ s.copied then
-        let a := if a = some sl then (match s.prev with | some p => some p | none => s.next) else a
-        ({ c with seg := c.seg.freeSlot sl }, a)
-      else (c, a)
-    | none => (c, a)) (c, aSlot)
+  (List.range (c.size - 1)).foldl gcStep (c, aSlot)
 
 end GrVerif.Seg
